@@ -25,11 +25,24 @@ func (m Message) TagType() byte {
 }
 
 func (m Message) MarshalNBT(w io.Writer) error {
+	// The caller has already written the tag type (and the tag name, if any),
+	// so only the payload of the compound goes to w. The nbt package has no
+	// payload-only entry point: encode in network format (a single type byte
+	// followed by the payload) and drop that byte.
+	var buf bytes.Buffer
+	enc := nbt.NewEncoder(&buf)
+	enc.NetworkFormat(true)
+	var err error
 	if m.Translate != "" {
-		return nbt.NewEncoder(w).Encode(translateMsg(m), "")
+		err = enc.Encode(translateMsg(m), "")
 	} else {
-		return nbt.NewEncoder(w).Encode(rawMsgStruct(m), "")
+		err = enc.Encode(rawMsgStruct(m), "")
 	}
+	if err != nil {
+		return err
+	}
+	_, err = w.Write(buf.Bytes()[1:])
+	return err
 }
 
 func (m *Message) UnmarshalNBT(tagType byte, r nbt.DecoderReader) error {
